@@ -338,12 +338,16 @@ Definition mon1 (m : mst) (e : list N) (p : pobs) : mst * list (nat * nat) :=
                   && match m_cur m with Some c => Nat.eqb c book_i | None => false end in
   let rec_ok := recorded && N.eqb my_out 0 in
   let rec_err := recorded && negb (N.eqb my_out 0) in
+  (* a success exit REPORTED to the exit callbacks resets the container's back-off, also when it is the exit of a routine
+     that was replaced meanwhile ("the backoff being reset by a success": any success; the code resets the shared
+     back-off in the bookkeeping of every record's latest instance).  The pending retry is not touched in that case. *)
+  let rep_ok := is_book && negb nodelta && N.eqb my_out 0 in
   (* back-off bookkeeping of the reference machine *)
   let '(idx', pend_new) :=
     match m_script m with
     | Some l => if rec_ok then (0%nat, None)
                 else if rec_err then (S (m_idx m), match nth_error l (m_idx m) with Some d => Some (clock' + d) | None => None end)
-                else (m_idx m, m_pending m)
+                else ((if rep_ok then 0%nat else m_idx m), m_pending m)
     | None => (m_idx m, None)
     end in
   let clears := spawned || epoch || is_restart || is_ctx_restart || (match e with [1; c; _] => N.eqb c 0 | _ => false end) in
